@@ -295,8 +295,12 @@ Unexplained(km, out, ideal, allow) ==
       \* C07: "earlier packets in the same buffer are still reported" when the buffer ends in unknown-template data
       c07 == IF i # 0 /\ n0 > 0 /\ eout[n0].k = "err" /\ eout[n0].why = "unknown-template" /\ i < n0
                THEN {<<"C07", "v9", "unknown-template", "earlier-items">>} ELSE {}
+      \* C07: "an IPFIX message simply omits that set" - the message itself is still reported
+      c07b == IF i # 0 /\ i <= n0 /\ eout[i].k = "ipfix" /\ KindAt(out, i) # "ipfix"
+                   /\ \E d \in 1..Len(eout[i].dropped) : eout[i].dropped[d].why = "unknown-template"
+                THEN {<<"C07", "ipfix", "unknown-template", "message-" \o KindAt(out, i)>>} ELSE {}
   IN IF i = 0 THEN {}
-     ELSE c07 \cup
+     ELSE c07 \cup c07b \cup
      IF i > Len(eout) THEN
        (IF ideal.stop = "unallowed" THEN {<<"C12", "filter", "reported-after-disallowed", KindAt(out, i)>>}
         ELSE {<<"C02", "framing", "extra-item", KindAt(out, i)>>})
@@ -333,8 +337,21 @@ GovEq(pr, postc, runc) ==
         /\ id \in DOMAIN postc[k]
         /\ StripDef(pr, k, postc[k][id]) = StripDef(pr, k, runc[k][id])
 
+\* C07: "the caches are unchanged by it" - ids the reference run met as unknown (and that nothing in the buffer
+\* defines, so they are unknown to the run to the end) must not have appeared in the cache
+UnknownIds(buf, run, pr) ==
+  LET o == run.out  n == Len(o) IN
+  IF pr = "v9" THEN
+    (IF n > 0 /\ o[n].k = "err" /\ o[n].why = "unknown-template" /\ o[n].ver = 9
+       THEN LET at == IF Len(o[n].sets) = 0 THEN o[n].s + 20 ELSE o[n].sets[Len(o[n].sets)].e + 1 IN {U16At(buf, at)}
+       ELSE {})
+  ELSE UNION {{o[i].dropped[d].id : d \in {q \in 1..Len(o[i].dropped) : o[i].dropped[q].why = "unknown-template"}}
+              : i \in {q \in 1..n : o[q].k = "ipfix"}}
+
 CacheFindings(buf, pre, post, run, matched) ==
   UNION {
+    (IF \E id \in UnknownIds(buf, run, pr) : id \in IdsOf(post[pr]) /\ id \notin IdsOf(run.tm[pr]) /\ id \notin IdsOf(pre[pr])
+       THEN {<<"C07", pr, "unknown-template", "cache">>} ELSE {}) \cup
     (IF \E id \in IdsOf(pre[pr]) : id \notin IdsOf(post[pr]) THEN {<<"C06", "cache", "evicted", pr>>} ELSE {})
     \cup (IF matched /\ ~GovEq(pr, post[pr], run.tm[pr]) THEN {<<"C06", "cache", "mismatch", pr>>} ELSE {})
     \cup UNION {
